@@ -126,7 +126,7 @@ def main():
             "name": "ncgverif",
             "path": "/verif/cmd/ncgverif",
             "serves_properties": sorted(CLAIMED.keys()),
-            "kind_free_text": "repository-specific static analyser (go/packages + go/types typed AST; own CFG with inlining and atomic conditions; path-sensitive product exploration; constant tables; go/ssa effect and error-type analyses). Runs no repository code, no tests, no solver.",
+            "kind_free_text": "repository-specific static analyser (go/packages + go/types typed AST; own CFG with inlining and atomic conditions; path-sensitive product exploration; constant tables; syntactic effect scans and dynamic-type decisions for error values; no go/ssa, no go/cfg). Runs no repository code, no tests, no solver.",
         }],
         "checks": checks,
         "notes": "All checks are static analyses of /repo's current working tree (re-loaded and type-checked on every run). Genuine defects found are repaired by fix: commits in /repo and listed in /verif/known_findings.txt as fixed: lines (they suppress nothing).",
